@@ -269,3 +269,19 @@ Definition chk_validate (g : vcfg) (x : vctx) (o : vorder) (observed : option vr
   | Some a, Some b => vreason_eqb a b
   | _, _ => false
   end.
+
+(* ---- mod life cycle (C19) ---- *)
+From RQ Require Import Model.ModLife.
+Definition code_eqb (a b : exit_code) : bool :=
+  match a, b with ExitSuccess, ExitSuccess | ExitUserError, ExitUserError | ExitInternalError, ExitInternalError => true | _, _ => false end.
+Definition lev_eqb (a b : lev) : bool :=
+  match a, b with
+  | LStart m, LStart m' => Nat.eqb m m'
+  | LCallback k, LCallback k' => Nat.eqb k k'
+  | LTearDown m c r, LTearDown m' c' r' => Nat.eqb m m' && code_eqb c c' && Bool.eqb r r'
+  | LResult b, LResult b' => Bool.eqb b b'
+  | _, _ => false
+  end.
+Fixpoint levs_eq (a b : list lev) : bool :=
+  match a, b with [], [] => true | x :: s, y :: t => lev_eqb x y && levs_eq s t | _, _ => false end.
+Definition chk_modlife (mods : list modspec) (n : nat) (f : fault) (observed : list lev) : bool := levs_eq (run_mods mods n f) observed.
